@@ -9,8 +9,12 @@ import KaVerif.Model.Elementary
 import KaVerif.Model.Display
 import KaVerif.Model.Lexer
 import KaVerif.Model.Parser
+import KaVerif.Model.Instant
+import KaVerif.Model.Prob
+import KaVerif.Model.Erf
 import KaVerif.Gen.Registry
 import KaVerif.Gen.Units
+import KaVerif.Gen.ProbTable
 /-
   The UNIFIED PIPELINE MODEL: one function from input text to (status, output text), composed of
   the per-topic fragments — the way `ka.interpret.execute` composes tokenise, parse_tokens,
@@ -28,11 +32,23 @@ import KaVerif.Gen.Units
     src/ka/interpret.py  execute (228-348): the three stages and what each handler returns,
                          reduce_result (350-355), display_result (through Model/Display.lean)
 
-  Values outside the model (instants, random variables, events, plots, Python bools) never exist
-  here: an implementation without a body in `implTable`, an instant literal, `quit()` … evaluate
+    src/ka/types.py      Instant, instant_from_iso, floor/ceil/±/comparisons/fields (through
+                         Model/Instant.lean: CPython's datetime / timedelta arithmetic)
+    src/ka/probability.py the eight distributions (parameter validation, pmf / cdf / mean through
+                         Model/Prob.lean), Event / DoubleEvent, eval_probability (the decision table
+                         Gen/ProbTable.lean, extracted from the live code)
+
+  Values outside the model (plots, Python bools) never exist here: an implementation without a
+  body in `implTable` (`rand`, `seed`, `sample`, `now`, `today`, plotting), `quit()` … evaluate
   to the outcome `unmodelled`, and the harness skips the comparison.  Because evaluation order is
   the code's (children left to right, the first raising call aborts), a program that raises before
   it reaches an unmodelled construct is still compared.
+
+  Probabilities are computed by the `Prob` fragment in exact rational arithmetic (a float parameter
+  enters with its exact value; `exp`, `erf`, `sqrt 2` are the C library's on doubles) and delivered
+  in the KIND Python delivers (a float where Python's arithmetic yields a float — then the double
+  nearest to the exact value —, an int / Fraction otherwise); the harness compares such numerals to
+  1e-9 like C08's own correspondence.
 
   Import-free apart from other Model/Gen modules.  Executable; evaluation is structurally
   recursive on the parse tree (no fuel for the tree); `dispatchV` carries a fuel for the nesting
@@ -42,6 +58,19 @@ import KaVerif.Gen.Units
 namespace KaVerif.Eval
 open KaVerif Num
 
+/-- the law of a random variable, in the `Prob` fragment's types -/
+inductive RvLaw where
+  | disc (d : Prob.Dist)
+  | cont (d : Prob.CDist)
+deriving Inhabited
+
+/-- a random variable: its law and the constructor arguments as Ka passed them (their Python kinds
+    decide the kind of every number computed from it, and what `__str__` prints) -/
+structure RV where
+  law : RvLaw
+  params : List Num
+deriving Inhabited
+
 /-- runtime values of the modelled sub-language -/
 inductive Val where
   | num (n : Num)                          -- int / Fraction / float
@@ -50,6 +79,11 @@ inductive Val where
   | arr (xs : List Val)                    -- Array
   | intv (a b : Num)                       -- Interval
   | str (s : String)
+  | inst (i : Instant.Inst)                -- Instant (naive datetime)
+  | rv (x : RV)                            -- a RandomVariable
+  | event (ops : List Prob.Op) (pos : Nat) (x : RV) (args : List Num)
+                                           -- Event(op, x, y) / DoubleEvent(op1, op2, x, y, z): the operators, the
+                                           -- argument position of the random variable, the numeric arguments in order
   | none                                   -- Python None: the value of an empty program
 deriving Inhabited
 
@@ -82,6 +116,16 @@ def cArr : Nat := Gen.Registry.classNames.idxOf "Array"
 def cIntv : Nat := Gen.Registry.classNames.idxOf "Interval"
 def cStr : Nat := Gen.Registry.classNames.idxOf "str"
 def cNone : Nat := Gen.Registry.classNames.idxOf "NoneType"
+def cInst : Nat := Gen.Registry.classNames.idxOf "Instant"
+def cEvent : Nat := Gen.Registry.classNames.idxOf "Event"
+def cDEvent : Nat := Gen.Registry.classNames.idxOf "DoubleEvent"
+
+/-- the Python class of a random variable -/
+def RV.className (x : RV) : String :=
+  match x.law with
+  | .disc (.binomial _ _) => "Binomial" | .disc (.poisson _ _) => "Poisson" | .disc (.geometric _) => "Geometric"
+  | .disc (.bernoulli _) => "Bernoulli" | .disc (.uniformInt _ _) => "UniformInt"
+  | .cont (.exponential _) => "Exponential" | .cont (.uniform _ _) => "Uniform" | .cont (.gaussian _ _) => "Gaussian"
 /-- the declared type `Number` (the only one `coerce_to` resolves lazies for) -/
 def tNumber : Nat := Gen.Registry.typeNames.idxOf "Number"
 
@@ -98,6 +142,9 @@ def classOf : Val → Nat
   | .arr _ => cArr
   | .intv _ _ => cIntv
   | .str _ => cStr
+  | .inst _ => cInst
+  | .rv x => Gen.Registry.classNames.idxOf x.className
+  | .event ops _ _ _ => if ops.length = 1 then cEvent else cDEvent
   | .none => cNone
 
 /-! ### environment (`EvalEnvironment._variables`) -/
@@ -599,12 +646,261 @@ def bKaRange : Body := fun rec args =>
     kaRangeLoop rec hi step n lo []
   | _ => bad
 
+/-! #### instants (functions.py "Dates & times"; types.py through Model/Instant.lean) -/
+
+/-- `SECONDS`: the exponent vector of the second over BASE_UNITS -/
+def secondsDim : List Int :=
+  (List.range Gen.Units.baseUnits.length).map (fun i => if i = Gen.Units.baseUnitsS.idxOf "s" then 1 else 0)
+
+/-- a quantity's exponent vector as `Model/Instant.lean` takes it -/
+def dimRat (d : List Int) : List Rat := d.map (fun (z : Int) => (z : Rat))
+
+/-- `floor_instant`, `ceil_instant` -/
+def bInst1 (f : Instant.Inst → Except Err Instant.Inst) : Body := fun _ args =>
+  match args with
+  | [.inst i] => liftE (f i) |>.map .inst
+  | _ => bad
+
+/-- `instant_minus_instant`: `Quantity((i1.dt - i2.dt).total_seconds(), SECONDS)` -/
+def bInstSub : Body := fun _ args =>
+  match args with
+  | [.inst a, .inst b] => liftE (Instant.instantMinusInstant a b) |>.map (fun m => .qty m secondsDim)
+  | _ => bad
+
+/-- `instant_plus_quantity` / `instant_minus_quantity` -/
+def bInstQty (plus : Bool) : Body := fun _ args =>
+  match args with
+  | [.inst i, .qty m d] =>
+    liftE (if plus then Instant.instantPlusQuantity i m (dimRat d) else Instant.instantMinusQuantity i m (dimRat d))
+      |>.map .inst
+  | _ => bad
+
+/-- `instant_plus_int` / `instant_minus_int` -/
+def bInstInt (plus : Bool) : Body := fun _ args =>
+  match args with
+  | [.inst i, .num (.int n)] =>
+    liftE (if plus then Instant.instantPlusInt i n else Instant.instantMinusInt i n) |>.map .inst
+  | _ => bad
+
+/-- `intify(instant_lt)` … `intify(operator.ne)` on two instants -/
+def bInstCmp (op : Instant.Cmp) : Body := fun _ args =>
+  match args with
+  | [.inst a, .inst b] => .ok (.num (Instant.cmpReg op a b))
+  | _ => bad
+
+inductive InstField where
+  | year | month | day | hour | minute | second
+deriving DecidableEq, Repr
+
+/-- `get_year` … `get_second` -/
+def InstField.get : InstField → Instant.Inst → Nat
+  | .year => Instant.Inst.year | .month => Instant.Inst.month | .day => Instant.Inst.dayOfMonth
+  | .hour => Instant.Inst.hour | .minute => Instant.Inst.minute | .second => Instant.Inst.second
+
+def bInstField (f : InstField) : Body := fun _ args =>
+  match args with
+  | [.inst i] => .ok (.num (.int (f.get i)))
+  | _ => bad
+
+/-! #### probability (functions.py "Probability"; probability.py through Model/Prob.lean and the
+    generated decision table Gen/ProbTable.lean) -/
+
+inductive RvKind where
+  | binomial | poisson | geometric | bernoulli | uniformInt | exponential | uniform | gaussian
+deriving DecidableEq, Repr
+
+/-- `math.exp(-mu)` as an exact rational: the constant the `Prob` fragment's Poisson law carries -/
+def poissonE (mu : Int) : Rat := floatToRat (Float.exp (-(intToFloat mu)))
+
+/-- the law a constructor call denotes; a float parameter enters with its exact value -/
+def mkLaw : RvKind → List Num → Option RvLaw
+  | .binomial, [.int n, p] => some (.disc (.binomial n p.toRat))
+  | .poisson, [.int mu] => some (.disc (.poisson mu (poissonE mu)))
+  | .geometric, [p] => some (.disc (.geometric p.toRat))
+  | .bernoulli, [p] => some (.disc (.bernoulli p.toRat))
+  | .uniformInt, [.int lo, .int hi] => some (.disc (.uniformInt lo hi))
+  | .exponential, [lam] => some (.cont (.exponential lam.toRat))
+  | .uniform, [lo, hi] => some (.cont (.uniform lo.toRat hi.toRat))
+  | .gaussian, [mu, sd] => some (.cont (.gaussian mu.toRat sd.toRat))
+  | _, _ => Option.none
+
+/-- the constructors' parameter checks (`Prob.Dist.valid`, `Prob.CDist.valid`) -/
+def RvLaw.valid : RvLaw → Bool
+  | .disc d => d.valid
+  | .cont d => d.valid
+
+/-- `Binomial(n, p)` … `Gaussian(mu, stddev)`: InvalidParameterException before any object exists -/
+def bMkRv (k : RvKind) : Body := fun _ args =>
+  match nums? args with
+  | Option.none => bad
+  | some ps =>
+    if !(ps.all Num.finite) then .error (.unmodelled "non-finite parameter") else
+    match mkLaw k ps with
+    | Option.none => bad
+    | some law => if law.valid then .ok (.rv ⟨law, ps⟩) else raise .invalidParam
+
+/-- `make_event_fun(op)` under its two signatures, and the `=` lambda: `Event(op, x, y)` -/
+def bEvent1 (op : Prob.Op) : Body := fun _ args =>
+  match args with
+  | [.rv x, .num t] => .ok (.event [op] 0 x [t])
+  | [.num t, .rv x] => .ok (.event [op] 1 x [t])
+  | _ => bad
+
+/-- `make_double_event_fun(op1, op2)`: `DoubleEvent(op1, op2, x, y, z)` -/
+def bEvent2 (o1 o2 : Prob.Op) : Body := fun _ args =>
+  match args with
+  | [.num a, .rv x, .num b] => .ok (.event [o1, o2] 1 x [a, b])
+  | _ => bad
+
+/-- `math.exp`, `math.erf`, `math.sqrt(2)` on doubles (the C library's), as functions on the exact values -/
+def floatFns : Prob.Fns :=
+  { exp := fun q => floatToRat (Float.exp (ratToFloat q)),
+    erf := fun q => floatToRat (Erf.erf (ratToFloat q)),
+    sqrt2 := floatToRat (Float.sqrt 2.0) }
+
+/-- the random variable as `eval_probability` sees it -/
+def RV.probLaw (x : RV) : Prob.Law :=
+  match x.law with
+  | .disc d => d.law
+  | .cont d => d.law floatFns
+
+/-- the numeric arguments of an event with the random variable's place left empty -/
+def eventSlots (pos : Nat) (args : List Num) : List (Option Num) :=
+  (args.take pos).map some ++ [Option.none] ++ (args.drop pos).map some
+
+/-- … as the `Prob` fragment's terms -/
+def slotTerms (slots : List (Option Num)) : List Prob.Term :=
+  slots.map (fun s => match s with | some a => .num a.toRat | Option.none => .rv)
+
+/-- does Python's arithmetic deliver a (non-integral) probability of this variable as a float?
+    Binomial / Geometric / Bernoulli: exactly when `p` is a float (ints and Fractions stay exact);
+    Poisson (`math.exp`, `fsum`), UniformInt (`int / int`), Exponential (`math.exp`), Gaussian
+    (`math.erf`): always.  Uniform: see `uniformLeafFloat`. -/
+def RV.probFloat (x : RV) : Bool :=
+  match x.law, x.params with
+  | .disc (.binomial _ _), [_, p] => p.isFloat
+  | .disc (.geometric _), [p] => p.isFloat
+  | .disc (.bernoulli _), [p] => p.isFloat
+  | .disc (.poisson _ _), _ => true
+  | .disc (.uniformInt _ _), _ => true
+  | .cont (.exponential _), _ => true
+  | .cont (.gaussian _ _), _ => true
+  | _, _ => false
+
+/-- `Uniform.cdf(v)` is the int 0 / 1 outside `[lo, hi)` and `(v-lo)/(hi-lo)` inside: a float when
+    an operand is a float or all three are ints (`int / int`), a Fraction otherwise -/
+def uniformLeafFloat (lo hi v : Num) : Bool :=
+  !(cmpLt v lo) && !(cmpLe hi v) &&
+    ((lo.isFloat || hi.isFloat || v.isFloat) || (lo.isInt && hi.isInt && v.isInt))
+
+/-- a rational result in the kind Python delivers it: a float (the double nearest to the exact
+    value) or the exact int / Fraction -/
+def deliver (isFloat : Bool) (q : Rat) : Num := if isFloat then .flt (ratToFloat q) else canon q
+
+/-- thresholds / counts beyond these are outside the model for the laws whose pmf / cdf loop or take
+    powers (`range(x+1)` sums of Binomial and Poisson, `(1-p)**x` of Geometric): the exact
+    arithmetic of the `Prob` fragment is not meant for them, and Poisson's `exp(-mu)` underflows; a
+    continuous variable declines numbers beyond the double range (OverflowError in the code) -/
+def maxThreshold : Nat := 2000
+def maxCount : Int := 1000
+def maxRate : Int := 500
+
+def probRefused (x : RV) (args : List Num) : Bool :=
+  match x.law with
+  | .disc (.binomial n _) => decide (n > maxCount) || args.any (fun a => decide (a.toRat.floor.natAbs > maxThreshold))
+  | .disc (.poisson mu _) => decide (mu > maxRate) || args.any (fun a => decide (a.toRat.floor.natAbs > maxThreshold))
+  | .disc (.geometric _) => args.any (fun a => decide (a.toRat.floor.natAbs > maxThreshold))
+  | .cont _ =>
+    -- a parameter / threshold beyond the double range: the code's float arithmetic raises OverflowError there
+    (args ++ x.params).any (fun a => decide (a.toRat.floor.natAbs > 10 ^ 300))
+  | _ => false
+
+/-- is the value of one `cdf` / `pmf` call a float in Python?  (the argument `a` of a continuous
+    variable's `cdf` is a plain argument `.var i` of the registered function) -/
+def leafFloat (x : RV) (slots : List (Option Num)) (a : Prob.Arg) : Bool :=
+  match x.law, x.params with
+  | .cont (.uniform _ _), [lo, hi] =>
+    (match a with
+     | .var i => (match slots[i]? with | some (some v) => uniformLeafFloat lo hi v | _ => false)
+     | _ => false)
+  | _, _ => x.probFloat
+
+/-- one `cdf(arg)` / `pmf(arg)` call: the `Prob` fragment's function on the exact argument (`math.floor`,
+    `math.ceil`, `- 1` as the decision table says; a discrete variable needs an int there), delivered in
+    Python's kind -/
+def leafNum (x : RV) (slots : List (Option Num)) (isPmf : Bool) (a : Prob.Arg) : Option Num :=
+  let env := Prob.envOf (slotTerms slots)
+  match x.law with
+  | .disc d => (a.evalZ env).map (fun k => deliver (leafFloat x slots a) (if isPmf then d.pmf k else d.cdf k))
+  | .cont d => if isPmf then Option.none else some (deliver (leafFloat x slots a) (d.cdf floatFns (a.evalQ env)))
+
+/-- Python's `a - b` on two numbers (a float result cannot overflow here) -/
+def pySubNum (a b : Num) : Option Num :=
+  match pyLin .sub a b with
+  | .ok r => some r
+  | .error _ => Option.none
+
+/-- the decision-table entry in Python's numeric tower: the leaves are the `Prob` fragment's `cdf` /
+    `pmf` values, `1 - e`, `e - f`, `max(e, 0)` are Python's operations on them (on floats: IEEE, so
+    that `1 - cdf` cancels exactly as it does in the code; on ints / Fractions: exact) -/
+def evalPN (x : RV) (slots : List (Option Num)) : Prob.PExpr → Option Num
+  | .cdf a => leafNum x slots false a
+  | .pmf a => leafNum x slots true a
+  | .oneSub e => (evalPN x slots e).bind (fun v => pySubNum (.int 1) v)
+  | .sub e f =>
+    match evalPN x slots e, evalPN x slots f with
+    | some u, some v => pySubNum u v
+    | _, _ => Option.none
+  | .max0 e => (evalPN x slots e).map (fun v => if cmpLt v (.int 0) then .int 0 else v)
+
+/-- `event.probability()`: the entry of the generated decision table for (operators, position of the
+    variable, discrete?) — the one `Prob.probWritten` evaluates — in Python's numeric tower -/
+def probOfEvent (ops : List Prob.Op) (pos : Nat) (x : RV) (args : List Num) : R Val :=
+  if probRefused x args then .error (.unmodelled "huge probability parameter") else
+  match Prob.findRow Gen.ProbTable.rows ops pos x.probLaw.isDisc with
+  | Option.none => raise (.py "Exception")       -- "Dunno how to evaluate the probability of this event!"
+  | some row =>
+    match evalPN x (eventSlots pos args) row.expr with
+    | some v => .ok (.num v)
+    | Option.none => raise (.py "TypeError")      -- a discrete cdf / pmf called with a non-int
+
+/-- `P(event)` -/
+def bProb : Body := fun _ args =>
+  match args with
+  | [.event ops pos x as] => probOfEvent ops pos x as
+  | _ => bad
+
+/-- `rv.mean()` in the `Prob` fragment -/
+def RV.mean (x : RV) : Rat :=
+  match x.law with
+  | .disc d => d.mean
+  | .cont d => d.mean
+
+/-- is `rv.mean()` a float in Python?  `n*p`, `1/p`, `p`, `mu`: like the parameter; Poisson's `mu`
+    is an int; `lo + (hi-lo)/2` on ints and `1/lam` on an int divide ints -/
+def RV.meanFloat (x : RV) : Bool :=
+  match x.law, x.params with
+  | .disc (.binomial _ _), [_, p] => p.isFloat
+  | .disc (.geometric _), [p] => p.isFloat
+  | .disc (.bernoulli _), [p] => p.isFloat
+  | .disc (.uniformInt _ _), _ => true
+  | .cont (.exponential _), [lam] => lam.isFloat || lam.isInt
+  | .cont (.uniform _ _), [lo, hi] => lo.isFloat || hi.isFloat || (lo.isInt && hi.isInt)
+  | .cont (.gaussian _ _), [mu, _] => mu.isFloat
+  | _, _ => false
+
+/-- `E(X)`, `mean(X)` -/
+def bMean : Body := fun _ args =>
+  match args with
+  | [.rv x] => .ok (.num (deliver x.meanFloat x.mean))
+  | _ => bad
+
 /-! ### the table: implementation descriptor ↦ body
 
   Keys are the strings of `Gen.Registry.implNames` (function name | signature | qualified name of
-  the registered callable with its closure cells).  A descriptor that is not listed (random
-  variables, events, plots, instants, `quit`, `rand`, `seed`, or a body whose source changed) has
-  no body: calling it is `unmodelled`. -/
+  the registered callable with its closure cells).  A descriptor that is not listed (plots, `quit`,
+  `rand`, `seed`, `sample`, `now`, `today`, or a body whose source changed) has no body: calling
+  it is `unmodelled`. -/
 
 /-- the base an `interval_ln` / `interval_log10` / `interval_log2` passes to `interval_log` -/
 inductive LogBase where
@@ -633,6 +929,9 @@ inductive BodyCode where
   | ivNumOp (op : String) | makeInterval | ivContains | inInterval | ivPow | ident | ivFlip | ivSqrt
   | ivLogFixed (b : LogBase) | ivLog | ivAbs | ivCmp (name : String) (shape : IvCmpShape) | ivEq (negate : Bool)
   | ivLower | ivUpper | ivMin | ivMax | ivSize | plusMinus
+  | instFloor | instCeil | instSub | instQty (plus : Bool) | instInt (plus : Bool)
+  | instCmp (op : Instant.Cmp) | instField (f : InstField)
+  | mkRv (k : RvKind) | rvMean | event1 (op : Prob.Op) | event2 (o1 o2 : Prob.Op) | prob
   | rev (c : BodyCode)
 deriving DecidableEq, Repr
 
@@ -671,6 +970,18 @@ def BodyCode.run : BodyCode → Body
   | .ivEq neg => bIvEq neg
   | .ivLower => bIvLower | .ivUpper => bIvUpper | .ivMin => bIvMin | .ivMax => bIvMax | .ivSize => bIvSize
   | .plusMinus => bPlusMinus
+  | .instFloor => bInst1 Instant.floorInstant
+  | .instCeil => bInst1 Instant.ceilInstant
+  | .instSub => bInstSub
+  | .instQty plus => bInstQty plus
+  | .instInt plus => bInstInt plus
+  | .instCmp op => bInstCmp op
+  | .instField f => bInstField f
+  | .mkRv k => bMkRv k
+  | .rvMean => bMean
+  | .event1 op => bEvent1 op
+  | .event2 o1 o2 => bEvent2 o1 o2
+  | .prob => bProb
   | .rev c => bRev c.run
 
 def implTable : List (String × BodyCode) := [
@@ -816,7 +1127,51 @@ def implTable : List (String × BodyCode) := [
   ("max|(Number, Interval)|ka.functions.register_commutative_op.<locals>.reverse_f[ka.functions.interval_max]", .rev .ivMax),
   ("size|(Interval)|ka.functions.interval_size", .ivSize),
   ("±|(Number, Number)|ka.functions.interval_plusminus", .plusMinus),
-  ("tol|(Number, Number)|ka.functions.interval_plusminus", .plusMinus)]
+  ("tol|(Number, Number)|ka.functions.interval_plusminus", .plusMinus),
+  -- instants
+  ("floor|(Instant)|ka.types.floor_instant", .instFloor),
+  ("ceil|(Instant)|ka.types.ceil_instant", .instCeil),
+  ("-|(Instant, Instant)|ka.types.instant_minus_instant", .instSub),
+  ("+|(Instant, Quantity)|ka.types.instant_plus_quantity", .instQty true),
+  ("+|(Quantity, Instant)|ka.functions.register_commutative_op.<locals>.reverse_f[ka.types.instant_plus_quantity]", .rev (.instQty true)),
+  ("+|(Instant, Integral)|ka.types.instant_plus_int", .instInt true),
+  ("+|(Integral, Instant)|ka.functions.register_commutative_op.<locals>.reverse_f[ka.types.instant_plus_int]", .rev (.instInt true)),
+  ("-|(Instant, Quantity)|ka.types.instant_minus_quantity", .instQty false),
+  ("-|(Instant, Integral)|ka.types.instant_minus_int", .instInt false),
+  ("==|(Instant, Instant)|ka.functions.intify.<locals>.f_new[_operator.eq]", .instCmp .eq),
+  ("!=|(Instant, Instant)|ka.functions.intify.<locals>.f_new[_operator.ne]", .instCmp .ne),
+  ("<|(Instant, Instant)|ka.functions.intify.<locals>.f_new[ka.types.instant_lt]", .instCmp .lt),
+  ("<=|(Instant, Instant)|ka.functions.intify.<locals>.f_new[ka.types.instant_leq]", .instCmp .le),
+  (">|(Instant, Instant)|ka.functions.intify.<locals>.f_new[ka.types.instant_gt]", .instCmp .gt),
+  (">=|(Instant, Instant)|ka.functions.intify.<locals>.f_new[ka.types.instant_geq]", .instCmp .ge),
+  ("year|(Instant)|ka.types.get_year", .instField .year),
+  ("month|(Instant)|ka.types.get_month", .instField .month),
+  ("day|(Instant)|ka.types.get_day", .instField .day),
+  ("hour|(Instant)|ka.types.get_hour", .instField .hour),
+  ("minute|(Instant)|ka.types.get_minute", .instField .minute),
+  ("second|(Instant)|ka.types.get_second", .instField .second),
+  -- probability
+  ("Binomial|(Integral, Number)|ka.probability.Binomial", .mkRv .binomial),
+  ("Poisson|(Integral)|ka.probability.Poisson", .mkRv .poisson),
+  ("Geometric|(Number)|ka.probability.Geometric", .mkRv .geometric),
+  ("Bernoulli|(Number)|ka.probability.Bernoulli", .mkRv .bernoulli),
+  ("UniformInt|(Integral, Integral)|ka.probability.UniformInt", .mkRv .uniformInt),
+  ("Exponential|(Number)|ka.probability.Exponential", .mkRv .exponential),
+  ("Uniform|(Number, Number)|ka.probability.Uniform", .mkRv .uniform),
+  ("Gaussian|(Number, Number)|ka.probability.Gaussian", .mkRv .gaussian),
+  ("mean|(RandomVariable)|ka.functions.<lambda:register_function(lambda rv: rv.mean(), \"mean\", (RandomVariable,), \"Get the mean of a random variable.\")>", .rvMean),
+  ("E|(RandomVariable)|ka.functions.<lambda:register_function(lambda rv: rv.mean(), \"E\", (RandomVariable,), \"Expectation of a random variable.\")>", .rvMean),
+  ("=|(DiscreteRandomVariable, Integral)|ka.functions.<lambda:register_function(lambda x, y: Event(ComparisonOp.EQ, x, y), ComparisonOp.EQ, (DiscreteRandomVariable, Integral), \"Compa>", .event1 .eq),
+  ("<|(Number, RandomVariable)|ka.functions.make_event_fun.<locals>.event_fun['<']", .event1 .lt),
+  ("<|(RandomVariable, Number)|ka.functions.make_event_fun.<locals>.event_fun['<']", .event1 .lt),
+  ("<=|(Number, RandomVariable)|ka.functions.make_event_fun.<locals>.event_fun['<=']", .event1 .le),
+  ("<=|(RandomVariable, Number)|ka.functions.make_event_fun.<locals>.event_fun['<=']", .event1 .le),
+  ("<_<|(Number, RandomVariable, Number)|ka.functions.make_double_event_fun.<locals>.event_fun['<','<']", .event2 .lt .lt),
+  ("<_<=|(Number, RandomVariable, Number)|ka.functions.make_double_event_fun.<locals>.event_fun['<','<=']", .event2 .lt .le),
+  ("<=_<|(Number, RandomVariable, Number)|ka.functions.make_double_event_fun.<locals>.event_fun['<=','<']", .event2 .le .lt),
+  ("<=_<=|(Number, RandomVariable, Number)|ka.functions.make_double_event_fun.<locals>.event_fun['<=','<=']", .event2 .le .le),
+  ("P|(Event)|ka.functions.<lambda:register_function(lambda event: event.probability(), \"P\", (etype,), \"Evaluate the probability of an event.\")>", .prob),
+  ("P|(DoubleEvent)|ka.functions.<lambda:register_function(lambda event: event.probability(), \"P\", (etype,), \"Evaluate the probability of an event.\")>", .prob)]
 
 /-- the body registered under an implementation descriptor -/
 def implBody (rec : Disp) (desc : String) : Option (List Val → R Val) :=
@@ -994,13 +1349,23 @@ def comprehension (subs : List (String × Val)) (conds : List (Env → R Val)) (
 
 def cmpName (o : Parser.PCmp) : String := o.spelling
 
+/-- the value of an instant literal: `instant_from_iso(raw)` (types.py).  It is computed when the
+    PARSER reads the token (parse.py `parse_instant`), so a malformed literal fails the parse stage:
+    `runTree` / `runTokens` check every literal before anything is evaluated (`checkInstants`) and
+    the two failure branches here are not reached from `execute`. -/
+def instLeaf (s : String) : R Val :=
+  match Instant.instantFromIso s.toList with
+  | .ok i => .ok (.inst i)
+  | .invalid => raise .runtime
+  | .notModelled => .error (.unmodelled "instant form")
+
 mutual
 /-- `eval_node` on an expression tree (every mode except ASSIGNMENT and STATEMENTS, which only
     occur at statement level: `wfE`).  Children left to right, then `eval_based_on_mode`. -/
 def evalE (env : Env) : Parser.Ast → R Val
   | .num v => liftE (simplify v) |>.map .num          -- LEAF: `simplify_number(v)` (parse_number)
   | .str s => .ok (.str s)
-  | .inst _ => .error (.unmodelled "instant")
+  | .inst s => instLeaf s                             -- LEAF: the Instant built by `parse_instant`
   | .var x =>
     match env.get x with
     | some v => .ok v
@@ -1107,14 +1472,77 @@ def evalAst (env : Env) (t : Parser.Ast) : R (Val × Env) :=
 /-- `reduce_result` (plots never arise here) -/
 def reduceResult : Val → R Val := resolveLazy
 
+/-- `Instant.__str__` = `datetime.isoformat()`: `YYYY-MM-DDTHH:MM:SS`, with `.ffffff` when the
+    microsecond is not zero -/
+def isoText (i : Instant.Inst) : Display.Text :=
+  Instant.textDate i.year i.month i.dayOfMonth ++ 'T' ::
+    (if i.micro = 0 then Instant.textHMS i.hour i.minute i.second
+     else Instant.textHMSU i.hour i.minute i.second i.micro)
+
+/-- the shortest decimal digits (1 … 17) that read back as the double of exact value `a > 0` -/
+def reprSearch (a : Rat) : Nat → Nat → Nat × Int
+  | 0, P => Display.sigDigits P a
+  | f + 1, P =>
+    let me := Display.sigDigits P a
+    if ratToFloat ((me.1 : Rat) * Display.pow10 (me.2 - (P : Int) + 1)) == ratToFloat a then me
+    else reprSearch a f (P + 1)
+
+/-- `repr(x)` of a finite double (`float_repr_style = 'short'`): shortest round-tripping digits,
+    exponent form iff the decimal point position is ≤ -4 or > 16, `.0` appended to a bare integer -/
+def reprFloat (x : Float) : Display.Text :=
+  let q := floatToRat x
+  if q = 0 then ['0', '.', '0'] else
+  let a := Display.absRat q
+  let me := reprSearch a 16 1
+  let body := Display.layoutG 16 (Display.stripZeros (Display.natText me.1)) me.2
+  let body := if body.contains '.' || body.contains 'e' then body else body ++ ['.', '0']
+  if q < 0 then '-' :: body else body
+
+/-- `str(x)` of a Python number (inside an f-string) -/
+def pyStr : Num → Display.Text
+  | .int n => Display.intText n
+  | .frac q => Display.fracText q
+  | .flt x => reprFloat x
+
+/-- `RandomVariable.__str__` -/
+def RV.text (x : RV) : Display.Text :=
+  let p := fun (i : Nat) => pyStr (x.params.getD i (.int 0))
+  match x.law with
+  | .disc (.binomial _ _) => "Binomial(n=".toList ++ p 0 ++ ", p=".toList ++ p 1 ++ [')']
+  | .disc (.poisson _ _) => "Poisson(rate=".toList ++ p 0 ++ [')']
+  | .disc (.geometric _) => "Geometric(p=".toList ++ p 0 ++ [')']
+  | .disc (.bernoulli _) => "Bernoulli(p=".toList ++ p 0 ++ [')']
+  | .disc (.uniformInt _ _) => "UniformInt(lo=".toList ++ p 0 ++ ", hi=".toList ++ p 1 ++ [')']
+  | .cont (.exponential _) => "Exponential(rate=".toList ++ p 0 ++ [')']
+  | .cont (.uniform _ _) => "Uniform(lo=".toList ++ p 0 ++ ", hi=".toList ++ p 1 ++ [')']
+  | .cont (.gaussian _ _) => "Gaussian(mean=".toList ++ p 0 ++ ", stddev=".toList ++ p 1 ++ [')']
+
+/-- `ComparisonOp` values -/
+def opText : Prob.Op → Display.Text
+  | .le => ['<', '='] | .lt => ['<'] | .gt => ['>'] | .ge => ['>', '='] | .eq => ['=']
+
+/-- `x op y [op z]` with single spaces -/
+def chainText : List Display.Text → List Prob.Op → Display.Text
+  | t :: ts, o :: os => t ++ ' ' :: opText o ++ ' ' :: chainText ts os
+  | [t], [] => t
+  | _, _ => []
+
+/-- `Event.__str__` / `DoubleEvent.__str__` -/
+def eventText (ops : List Prob.Op) (pos : Nat) (x : RV) (args : List Num) : Display.Text :=
+  "Event(".toList ++
+    chainText ((eventSlots pos args).map (fun s => match s with | some a => pyStr a | Option.none => x.text)) ops ++ [')']
+
 mutual
 def toDVal : Val → Option Display.DVal
+  | .inst i => some (.inst (isoText i))
   | .num n => some (.num n)
   | .qty m d => some (.qty m d)
   | .arr xs => (toDVals xs).map .arr
   | .intv a b => some (.intv a b)
   | .str s => some (.str s.toList)
   | .comb _ => Option.none
+  | .rv _ => Option.none                  -- inside an array: `str(rv)` without quotes — not a `DVal`
+  | .event _ _ _ _ => Option.none
   | .none => Option.none
 def toDVals : List Val → Option (List Display.DVal)
   | [] => some []
@@ -1130,6 +1558,8 @@ def unitNames : List Display.Text := Gen.Units.baseUnitsS.map String.toList
 /-- the text `execute` writes to `out` for a reduced result (default precision, no brackets) -/
 def displayText : Val → R String
   | .none => .ok "\n"                                   -- `print(file=out)`
+  | .rv x => .ok (String.ofList (x.text ++ ['\n']))      -- `print(r)`: `str(r)`
+  | .event ops pos x args => .ok (String.ofList (eventText ops pos x args ++ ['\n']))
   | v =>
     match toDVal v with
     | Option.none => .error (.unmodelled "display")
@@ -1159,8 +1589,7 @@ def ofEvalErr : EvalErr → Outcome
   | .fuel => .unmodelled "model bound"
 
 mutual
-/-- an instant literal anywhere in the tree: `instant_from_iso` runs at PARSE time (and may
-    raise there), so such programs are outside the model as a whole -/
+/-- an instant literal anywhere in the tree -/
 def hasInstant : Parser.Ast → Bool
   | .inst _ => true
   | .num _ | .str _ | .var _ => false
@@ -1186,9 +1615,62 @@ def hasInstantK : List (String × Parser.Ast) → Bool
   | (_, x) :: xs => hasInstant x || hasInstantK xs
 end
 
+mutual
+/-- the raw texts of the instant literals of a tree -/
+def instTexts : Parser.Ast → List String
+  | .inst s => [s]
+  | .num _ | .str _ | .var _ => []
+  | .bin _ l r => instTexts l ++ instTexts r
+  | .sign _ x => instTexts x
+  | .fact x => instTexts x
+  | .range a b => instTexts a ++ instTexts b
+  | .interval a b => instTexts a ++ instTexts b
+  | .cmp1 _ a b => instTexts a ++ instTexts b
+  | .cmp2 _ _ a b c => instTexts a ++ instTexts b ++ instTexts c
+  | .call _ args kws => instTextsL args ++ instTextsK kws
+  | .quantity t _ => instTexts t
+  | .convert e _ => instTexts e
+  | .array xs => instTextsL xs
+  | .compr b gens conds => instTexts b ++ instTextsK gens ++ instTextsL conds
+  | .assign _ e => instTexts e
+  | .stmts ss => instTextsL ss
+def instTextsL : List Parser.Ast → List String
+  | [] => []
+  | x :: xs => instTexts x ++ instTextsL xs
+def instTextsK : List (String × Parser.Ast) → List String
+  | [] => []
+  | (_, x) :: xs => instTexts x ++ instTextsK xs
+end
+
+def isoNotModelled (s : String) : Bool :=
+  match Instant.instantFromIso s.toList with
+  | .notModelled => true
+  | _ => false
+
+def isoInvalid (s : String) : Bool :=
+  match Instant.instantFromIso s.toList with
+  | .invalid => true
+  | _ => false
+
+/-- `instant_from_iso` on the instant literals the parser has read (it runs at PARSE time):
+    `none` = every literal is an instant; a literal in a form the ISO model does not cover puts the
+    input outside the model; otherwise a malformed literal is the KaRuntimeError that
+    `execute`'s handler around `parse_tokens` reports (status 1, no position marker) — whichever
+    literal the parser meets first, the class is the same. -/
+def checkInstants (texts : List String) : Option Outcome :=
+  if texts.any isoNotModelled then some (.unmodelled "instant form")
+  else if texts.any isoInvalid then some (.evalErr .runtime)
+  else Option.none
+
+/-- the raw texts of the instant tokens -/
+def tokInstTexts (tokens : List Token) : List String :=
+  tokens.filterMap (fun t => match Parser.PTok.ofToken t with | .inst s => some s | _ => Option.none)
+
 /-- the part of `execute` after parsing: evaluate, reduce, display -/
 def runTree (env : Env) (t : Parser.Ast) : Env × Outcome :=
-  if hasInstant t then (env, .unmodelled "instant") else
+  match checkInstants (instTexts t) with
+  | some o => (env, o)
+  | Option.none =>
   match runProgram env t with
   | (env', .error e) => (env', ofEvalErr e)
   | (env', .ok v) =>
@@ -1209,11 +1691,15 @@ def parseErrIndex (tokens : List Token) (tokenIndex : Nat) : Nat :=
 def runTokens (env : Env) (tokens : List Token) : Env × Outcome :=
   match Parser.parse tokens with
   | .error (.parsing i) =>
-    -- `instant_from_iso` runs when the parser reads an instant token and may raise there: an instant
-    -- token before the offending one puts the input outside the model
-    if (tokens.take i).any (fun t => t.tag == .inst) then (env, .unmodelled "instant")
-    else (env, .parseErr (parseErrIndex tokens i))
-  | .error .overflow => (env, .escaped "OverflowError")
+    -- `instant_from_iso` runs when the parser reads an instant token and may raise there: the instant
+    -- tokens before the offending one have been read (a ParsingError points at the token being read)
+    match checkInstants (tokInstTexts (tokens.take i)) with
+    | some o => (env, o)
+    | Option.none => (env, .parseErr (parseErrIndex tokens i))
+  | .error .overflow =>
+    -- where `parse_number` overflowed is not recorded: with a malformed instant literal around, which
+    -- of the two exceptions comes first is not known
+    if (checkInstants (tokInstTexts tokens)).isSome then (env, .unmodelled "instant") else (env, .escaped "OverflowError")
   | .error .fuel => (env, .unmodelled "parser bound")
   | .ok t => runTree env t
 
